@@ -149,8 +149,18 @@ def check_cost(ctx, c, label, dr, rng, fails):
         n = label['ncore'][name]
         sigma = label['sigma2'][name] * dr / 2.0
         clo = P.sys.closure[a, b]
-        val = np.asarray(clo.value, dtype=float)
-        gin = np.asarray(P.GammaIn[a, b], dtype=float)
+        # GammaIn and closure.value are what THIS implementation of cost() leaves behind; the cost argument is r * gamma by
+        # definition, and a closure's output is what calculate() returns: both are recomputed through the public API when the
+        # attributes are gone
+        if getattr(P, 'GammaIn', None) is not None:
+            gin = np.asarray(P.GammaIn[a, b], dtype=float)
+        else:
+            gin = (x.reshape(LEN, 2, 2) / r.reshape(-1, 1, 1))[:, [NA, NB].index(a), [NA, NB].index(b)]
+        if getattr(clo, 'value', None) is not None and np.shape(clo.value) == gin.shape:
+            val = np.asarray(clo.value, dtype=float)
+        else:
+            with np.errstate(all='ignore'):
+                val = np.asarray(clo.calculate(P.sys.domain.r, gin), dtype=float)
         idx = np.arange(n)
         # a grid point that coincides with sigma only up to grid noise is not "r <= sigma" bitwise: C10's business
         idx = idx[~((np.abs(r[idx] - sigma) < 1e-6) & (r[idx] != sigma))]
